@@ -1,5 +1,5 @@
 """Check specifications of the concurrent properties."""
-from . import conc, queue, adder
+from . import conc, queue, adder, breaker
 
 T1_TRUST = [
     "cooperative scheduler + import-rewritten scratch copy of /repo (tools/mkinst.py, shim/): sync/atomic and sync calls are the scheduling points; "
@@ -15,6 +15,9 @@ def spec(prop, title, driver, gen, model_note, relevant=None, partial=(), truste
                 replay_how="each entry: scenario (threads x ops, prefill) + scheduler choice list; `./check %s --replay <file>` re-executes it on the current tree" % prop)
 
 AMODEL = "Adder/StripedModel.v (striped64.go+jdkAdder.go and, with the f64 flag, stripedF64.go+jdkF64Adder.go) and Adder/SimpleModel.v (randomCellAdder, atomicAdder, atomicF64Adder, mutexAdder)"
+BMODEL = "Breaker/BreakerModel.v (nonBlockingCircuitBreaker.go + slidingWindowCounter.go + eventCount.go; reservoir queue and bucket adders bound to atomic specification objects; trip rule = Pure/Config.v exceeds)"
+BTRUST = ["inside package cbreaker every queue / adder call is ONE atomic step on a specification object (wrappers shim/vqueue, shim/vadder around the real implementations): sound by linearizability of those components (C01/C13, C02/C09), an explicit composition step",
+          "Ticker readings are a stream chosen by the scenario (theorems: any stream); wall-clock meaning of ticks is outside the model"]
 QMODEL = "Queue/JdkModel.v (hand-written step machine of jdkLinkedQueue.go + node.go, one step per sync/atomic access) and Queue/MutexModel.v (mutexLinkedQueue.go)"
 
 SPECS = {
@@ -39,4 +42,10 @@ SPECS = {
                 trusted=T1_TRUST + ["sync.RWMutex modelled as {writer flag, reader count} without Go's writer preference (which only removes behaviours)"],
                 partial=[], replay=lambda data: conc.replay("C19", data, data.get("violations", data.get("mismatches", [{}]))[0].get("driver", "queue") if (data.get("violations") or data.get("mismatches")) else "queue"),
                 replay_how="each entry: scenario + scheduler choice list + driver name; `./check C19 --replay <file>`"),
+    "C03": spec("C03", "Breaker fails fast while open and admits exactly one trial at a time", "breaker", breaker.gen_c03, BMODEL, trusted=BTRUST,
+                relevant=r"admitted|rejections|transitions|final circuit state|did not complete"),
+    "C06": spec("C06", "Breaker follows the documented state machine for every call sequence", "breaker", breaker.gen_c06, BMODEL, trusted=BTRUST,
+                relevant=r"state machine|did not complete"),
+    "C10": spec("C10", "Sliding-window counter neither invents, double-counts nor loses events", "breaker", breaker.gen_c10, BMODEL, trusted=BTRUST,
+                relevant=r"window|did not complete"),
 }
